@@ -7,9 +7,9 @@ CONSTANTS
   AnchorRules <- mcAnchorRules
   DefRule <- Dom
   InitRules <- mcInitRules
-  Ops <- mcOps
+  Ops <- mcOpsClear
   MaxLevel = 4
-  ClearOrder <- mcClearOrder
+  ClearOrder <- mcClearOrderBug
 INVARIANT CrashSafe
 INVARIANT CutIsFull
 CHECK_DEADLOCK FALSE
